@@ -72,6 +72,7 @@ fn fwd(op: &Op, _ctx: &dyn Context, operands: &mut dyn CoordinateSet) -> usize {
 
     for i in 0..operands.len() {
         let (lon, lat) = operands.xy(i);
+        let lon = lambda_0 + angular::normalize_symmetric(lon - lambda_0);
         let slat = lat.sin();
 
         let t = (FRAC_PI_4 - lat / 2.0).tan() / ((1.0 - e * slat) / (1.0 + e * slat)).powf(e / 2.0);
